@@ -484,6 +484,7 @@ fn one_policy(out: &mut Out, w: &SchemaWorld, ssx: &str, st: Option<&StoreCtx>, 
 pub fn run(args: &Args, out: &mut Out) {
     let mut rng = Rng::new(args.seed);
     probes(out);
+    type_grid(out);
     let policies_per_world = 20;
     let requests_per_policy = 10;
     for case in 0..args.n {
@@ -551,6 +552,83 @@ fn probes(out: &mut Out) {
         for mode in [ValidationMode::Strict, ValidationMode::Permissive] {
             if let (Ok(m), Some(line)) = (typecheck_all(&schema, &t, mode), tyck_line(&ssx, mode, &t)) {
                 out.line(line, impl_reply(&m), format!("probe {} {src}", mode_name(mode)));
+            }
+        }
+    }
+}
+
+/// TYPE-RELATION GRID (deterministic): one fixed schema whose context has an attribute of every kind of type
+/// (primitives, two entity types, extension types, records that share an attribute name with optional / required
+/// attributes of different types, the empty record, sets of all those).  For every ordered pair (x, y):
+/// `context.x == context.y`, `context.x != context.y || principal.nick like "a*"` (the right operand reads an optional
+/// attribute WITHOUT a guard, so the policy is only acceptable when the comparison is typed True), a `contains` and an
+/// `if` joining both types — each typechecked in both modes against the model (disjointness / least-upper-bound / strict
+/// compatibility tables), and each strict-accepted one evaluated on the request whose context holds the smallest
+/// inhabitant of every type (optional attributes absent, sets empty): the verdict True / False must be what evaluation
+/// gives and no forbidden error may occur.
+fn type_grid(out: &mut Out) {
+    use cedar_policy_core::ast::{Context, Entity, RestrictedExpr};
+    use std::collections::HashSet;
+    use std::str::FromStr;
+    const ATTRS: &[(&str, &str, &str)] = &[
+        ("l", "Long", "0"), ("s", "String", "\"\""), ("b", "Bool", "false"), ("ea", "A", "A::\"a\""), ("eb", "B", "B::\"b\""),
+        ("d", "decimal", "decimal(\"0.0\")"), ("ip", "ipaddr", "ip(\"1.1.1.1\")"),
+        ("ra", "{by?: A}", "{}"), ("rb", "{by?: B}", "{}"), ("rra", "{by: A}", "{by: A::\"a\"}"), ("rrb", "{by: B}", "{by: B::\"b\"}"),
+        ("rl", "{by?: Long}", "{}"), ("rx", "{other?: A}", "{}"), ("re", "{}", "{}"), ("rn", "{inner?: {by?: A}}", "{}"), ("rm", "{inner?: {by?: B}}", "{}"),
+        ("sa", "Set<A>", "[]"), ("sb", "Set<B>", "[]"), ("sl", "Set<Long>", "[]"), ("sra", "Set<{by?: A}>", "[{}]"), ("srb", "Set<{by?: B}>", "[{}]"),
+    ];
+    let ctx_ty = ATTRS.iter().map(|(n, t, _)| format!("{n}: {t}")).collect::<Vec<_>>().join(", ");
+    let text = format!("entity A; entity B; entity U {{ nick?: String }};\naction act appliesTo {{ principal: U, resource: A, context: {{ {ctx_ty} }} }};");
+    let (schema, _) = ValidatorSchema::from_cedarschema_str(&text, Extensions::all_available()).expect("grid schema");
+    let ssx = sx_schema::schema(&schema);
+    let ext = Extensions::all_available();
+    let uid = |t: &str, i: &str| EntityUID::with_eid_and_type(t, i).expect("grid uid");
+    let mut ents: Vec<Entity> = [("A", "a"), ("B", "b"), ("U", "u")].iter().map(|(t, i)| Entity::new_with_attr_partial_value(uid(t, i), [], HashSet::new(), HashSet::new(), [])).collect();
+    ents.extend(schema.action_entities().expect("action entities"));
+    let store = Entities::from_entities(ents, Some(&CoreSchema::new(&schema)), TCComputation::ComputeNow, ext).expect("grid store conforms");
+    let ctx = Context::from_pairs(ATTRS.iter().map(|(n, _, v)| ((*n).into(), RestrictedExpr::from_str(v).expect("grid value"))), ext).expect("grid context");
+    let req = ast::Request::new((uid("U", "u"), None), (uid("Action", "act"), None), (uid("A", "a"), None), ctx, Some(&schema), ext).expect("grid request conforms");
+    let ev = Evaluator::new(req, &store, ext);
+    for (x, _, _) in ATTRS {
+        for (y, _, _) in ATTRS {
+            let conds = [
+                format!("context.{x} == context.{y}"),
+                format!("context.{x} != context.{y} || principal.nick like \"a*\""),
+                format!("[context.{x}].contains(context.{y})"),
+                format!("(if principal has nick then context.{x} else context.{y}) == context.{y}"),
+            ];
+            for c in conds {
+                let src = format!("permit(principal, action, resource) when {{ {c} }};");
+                let t = parser::parse_policy_or_template(Some(PolicyID::from_string("p0")), &src).expect("grid policy parses");
+                out.count("grid_policies");
+                let mut strict = None;
+                for mode in [ValidationMode::Strict, ValidationMode::Permissive] {
+                    match typecheck_all(&schema, &t, mode) {
+                        Ok(m) => {
+                            if let Some(line) = tyck_line(&ssx, mode, &t) {
+                                out.line(line, impl_reply(&m), format!("type grid {} {src}", mode_name(mode)));
+                                out.count(&format!("tyck_lines:{}", mode_name(mode)));
+                            }
+                            if mode == ValidationMode::Strict { strict = m.into_values().next(); }
+                        }
+                        Err(p) => out.propfail("panic in the typechecker", &format!("type grid policy=`{src}` schema={text}"), &p),
+                    }
+                }
+                let Some(er) = strict else { continue };
+                out.count(&format!("grid_strict:{}", er.verdict));
+                if !matches!(er.verdict, "tt" | "ff" | "bool") { continue; }
+                let case = format!("type grid policy=`{src}` schema={text} request: U::\"u\" (no nick), context = smallest inhabitants (optional attributes absent)");
+                match catch_unwind(AssertUnwindSafe(|| ev.interpret(&t.condition(), &HashMap::new()))) {
+                    Err(p) => out.propfail("panic evaluating a validated policy", &case, &crate::c02::panic_msg(p)),
+                    Ok(Err(e)) if !permitted(&e) => out.propfail("validated policy fails with a forbidden error class", &case, err_name(&e)),
+                    Ok(Err(_)) => {}
+                    Ok(Ok(v)) => match (as_bool(&v), er.verdict) {
+                        (None, _) => out.propfail("validated policy evaluates to a non-boolean", &case, &sx::value(&v)),
+                        (Some(true), "ff") => out.propfail("policy typed False in the request's environment is satisfied", &case, "typed False, evaluates to true"),
+                        (Some(false), "tt") => out.propfail("policy typed True in the request's environment evaluates to false", &case, "typed True, evaluates to false"),
+                        _ => {}
+                    },
+                }
             }
         }
     }
